@@ -12,6 +12,8 @@ import NodisVerif.Driver.SlOps
 import NodisVerif.Driver.RespWriterOps
 import NodisVerif.Driver.FloatOps
 import NodisVerif.Model.Feed
+import NodisVerif.Driver.PatchOps
+import NodisVerif.Model.FeedWire
 open NodisVerif
 
 structure DState where
@@ -50,6 +52,7 @@ def step (d : DState) (line : String) : DState × String :=
   | [] => (d, "")
   | "ck" :: _ | "dk" :: _ | "ev" :: _ => (d, Driver.codecOp toks)
   | "frag" :: rest => (d, Driver.fragOp rest)
+  | "pschema" :: _ | "penc" :: _ | "pdec" :: _ => (d, Driver.patchOp toks)
   | "ll" :: rest => let (l, out) := Driver.llOp d.ll rest; ({ d with ll := l }, out)
   | "sl" :: rest => let (sl, out) := Driver.slOp d.sl rest; ({ d with sl := sl }, out)
   | "slz" :: rest => let (p, out) := Driver.slzOp d.slz rest; ({ d with slz := p }, out)
@@ -86,6 +89,17 @@ def step (d : DState) (line : String) : DState × String :=
       let recs := ((d.feeds.find? (·.1 == d.cur)).map (·.2)).getD []
       let m := (recs.filter fun r => d.patterns.any fun p => Glob.matched p r.key).length
       ({ d with feeds := d.feeds.filter (·.1 != d.cur) }, s!"feedp all={recs.length} matched={m} ok")
+    | ["feedw"] =>
+      -- like feed; every record as it arrives through the bytes, with the digest of the bytes themselves
+      let recs := ((d.feeds.find? (·.1 == d.cur)).map (·.2)).getD []
+      let parts := recs.map fun r =>
+        Feed.render ((Feed.viaWire r).getD r) ++ "@" ++
+          (match Feed.toWire r with
+           | some w => Wire.hex64 (Wire.fnv64 (ProtoWire.encodeOp w))
+           | none => "none")
+      let allHSet := recs.length > 1 && recs.all fun r => r.typ == 10 && r.key == (recs.head?.map (·.key)).getD []
+      let parts := if allHSet then parts.mergeSort (fun a b => decide (a ≤ b)) else parts
+      ({ d with feeds := d.feeds.filter (·.1 != d.cur) }, Wire.compact ("feedw " ++ " ".intercalate parts))
     | ["feed"] =>
       let recs := ((d.feeds.find? (·.1 == d.cur)).map (·.2)).getD []
       let parts := recs.map Feed.render
@@ -97,7 +111,13 @@ def step (d : DState) (line : String) : DState × String :=
       let recs := ((d.feeds.find? (·.1 == d.cur)).map (·.2)).getD []
       let d := { d with feeds := d.feeds.filter (·.1 != d.cur) }
       let rsv : Server := ((d.inst.find? (·.1 == dst)).map (·.2)).getD {}
-      if !(recs.all Feed.wireOk) then (d, "DECODE-ERROR") else
+      -- the records travel as bytes: toWire, ProtoWire.encodeOp, ProtoWire.decodeOp, fromWire (Model/FeedWire.lean);
+      -- the older field-level predicate `Feed.wireOk` (Lean's own UTF-8 validator) must give the same verdict
+      if recs.any (fun r => Feed.wireOk r != (Feed.viaWire r).isSome) then (d, "WIRE-MODELS-DISAGREE") else
+      if !(recs.all fun r => (Feed.viaWire r).isSome) then (d, "DECODE-ERROR") else
+      -- hypothesis of `C20.replicate_through_wire`, checked on every record that is shipped
+      if !(recs.all Feed.wireNormal) then (d, "WIRE-NOT-NORMAL") else
+      let recs := recs.filterMap Feed.viaWire
       (match Feed.applyAll { rsv.store with signalled := [], held := [], hung := false } now recs with
        | none => (d, "APPLY-ERROR")
        | some r =>
